@@ -25,7 +25,9 @@ ASSUMPTIONS = [
 BOUNDS = {"quick": "14 instances, lengths with p > 1e-4 (at most 14 per block), all rooted writings for molecules up to 16 atoms", "thorough": "40 instances, p > 1e-6"}
 CASE_TIMEOUT = {"quick": 1500, "thorough": 6000}
 
-UNIT = {"CC": ("[<]CC[>]", "CC"), "CO": ("[<]CO[>]", "CO"), "CS": ("[<]CS[>]", "CS"), "CCl": ("[<]C(Cl)C[>]", "C(Cl)C"), "CN": ("[<]C(N)C[>]", "C(N)C"), "CF2": ("[<]C(F)(F)[>]", "C(F)(F)"), "O": ("[<]O[>]", "O")}
+UNIT = {"CC": ("[<]CC[>]", "CC"), "CO": ("[<]CO[>]", "CO"), "CS": ("[<]CS[>]", "CS"), "CCl": ("[<]C(Cl)C[>]", "C(Cl)C"), "CN": ("[<]C(N)C[>]", "C(N)C"), "CF2": ("[<]C(F)(F)[>]", "C(F)(F)"), "O": ("[<]O[>]", "O"),
+        # isotope-labelled heavy atom (the generator weighs the real molecule, labels included)
+        "C13": ("[<]C(N)[13CH2][>]", "C(N)[13CH2]")}
 
 
 def instances(tier):
@@ -58,6 +60,11 @@ def instances(tier):
     out.append({"start": ("prefix", "CC"), "blocks": [("CC", "log_normal", (80.0, 1.2)), ("CC", "log_normal", (50.0, 1.4))], "suffix": "Cl"})
     out.append({"start": ("prefix", "CC"), "blocks": [("CC", "gauss", (60.0, 15.0)), ("CC", "gauss", (90.0, 25.0))], "suffix": "Cl"})
     out.append({"start": ("prefix", "CC"), "blocks": [("CO", "flory_schulz", (0.05,)), ("CO", "flory_schulz", (0.02,))], "suffix": "Cl"})
+    # isotope-labelled unit; laws whose mass sits below one unit (every chain has one unit; a molecule WITHOUT the block is
+    # outside the ensemble)
+    out.append({"start": ("prefix", "OCC"), "blocks": [("C13", "uniform", (0, 300))], "suffix": "[Si]"})
+    out.append({"start": ("prefix", "OCC"), "blocks": [("CN", "poisson", (3.0,))], "suffix": "[Si]"})
+    out.append({"start": ("prefix", "OCC"), "blocks": [("CN", "uniform", (0, 200)), ("CO", "poisson", (3.0,))], "suffix": "[Si]"})
     # integer-valued laws with unit masses whose cumulative values have fractional parts below and above one half
     out.append({"start": ("prefix", "N"), "blocks": [("CCl", "flory_schulz", (0.01,))], "suffix": "F"})
     out.append({"start": ("prefix", "N"), "blocks": [("CCl", "poisson", (200.0,))], "suffix": "F"})
@@ -172,7 +179,7 @@ def eval_case(kind, data):
         pb, rest = block_probs(fam, par, m, ref_cut)
         per_block.append(pb)
         r_ = Ref(fam, tuple(par))
-        below = r_.cdf(0.0) if not r_.discrete else 0.0
+        below = r_.cdf(0.0)  # P(draw <= 0): negative draws of continuous laws, the point mass at 0 of integer-valued laws
         per_block_alt.append({n: (p - below if n == 1 else p) for n, p in pb.items()})
     from .. import refsem as R
 
@@ -269,7 +276,15 @@ def eval_case(kind, data):
         viol(res, f"C19|ensemble-sum|{shape}", f"{text}: reported probabilities of the {nq} queried members sum to {total_reported:.6f}, the generator's to {total_ref:.6f}", {"text": text})
     # non members
     base = smiles_of(inst, [2] * len(inst["blocks"]), None if kind_ == "prefix" else val[0][0])
-    for bad in [base.replace("F", "Br", 1) if "F" in base else base + "Br", "C" + base, base[: len(base) // 2] + "(C)" + base[len(base) // 2 :], "c1ccccc1", base + "." + base]:
+    bads = [base.replace("F", "Br", 1) if "F" in base else base + "Br", "C" + base, base[: len(base) // 2] + "(C)" + base[len(base) // 2 :], "c1ccccc1", base + "." + base]
+    # molecules that lack one block entirely (every object contributes at least one unit, so they are outside the ensemble)
+    blockless = {}
+    for bi in range(len(inst["blocks"])):
+        ls = [2] * len(inst["blocks"])
+        ls[bi] = 0
+        bads.append(smiles_of(inst, ls, None if kind_ == "prefix" else val[0][0]))
+        blockless[bads[-1]] = bi
+    for bad in bads:
         if Chem.MolFromSmiles(bad) is None:
             continue
         res["states"] += 1
@@ -280,7 +295,10 @@ def eval_case(kind, data):
             p = out[0] if isinstance(out, tuple) else out
             # is it really a non member? only claim when no queried member has the same canonical SMILES
             if float(p) > 1e-12 and Chem.CanonSmiles(bad) not in {Chem.CanonSmiles(x) for x in ref} and not is_member(inst, bad):
-                viol(res, f"C19|non-member-positive|{shape}", f"{text}: {bad} is not in the ensemble but has probability {p}", {"text": text, "smiles": bad})
+                if bad in blockless:
+                    viol(res, f"C19|non-member-positive|molecule-without-any-unit-of-block-{blockless[bad] + 1}|{shape}", f"{text}: {bad} contains no unit of stochastic object {blockless[bad] + 1} (every object contributes at least one), yet it has probability {p}", {"text": text, "smiles": bad})
+                else:
+                    viol(res, f"C19|non-member-positive|{shape}", f"{text}: {bad} is not in the ensemble but has probability {p}", {"text": text, "smiles": bad})
     res["evals"] = res["traces"]
     res["nontrivial"] = [text, nq]
     res["outcomes"] = [f"{shape}:{nq}"]
